@@ -11,6 +11,7 @@ import (
 
 	"connectrpc.com/vanguard"
 	"connectrpc.com/vanguard/vanguardgrpc"
+	"google.golang.org/genproto/googleapis/api/httpbody"
 	"google.golang.org/grpc"
 	"google.golang.org/protobuf/proto"
 	"google.golang.org/protobuf/reflect/protodesc"
@@ -24,6 +25,7 @@ import (
 
 	"connectrpc.com/vanguard/verifharness/drive"
 	"connectrpc.com/vanguard/verifharness/wire"
+	"connectrpc.com/vanguard/verifharness/world"
 	"connectrpc.com/vanguard/verifharness/xplor"
 )
 
@@ -74,17 +76,30 @@ type c20Variant struct {
 	make func(h http.Handler, opts ...vanguard.ServiceOption) (*vanguard.Service, error)
 }
 
+const contentSvc = "vanguard.test.v1.ContentService"
+
 var (
-	c20Once     sync.Once
-	c20Fresh    protoreflect.ServiceDescriptor
-	c20DynOpts  protoreflect.ServiceDescriptor
-	c20InitErr  error
-	c20Variants []c20Variant
+	c20Once       sync.Once
+	c20InitErr    error
+	c20Variants   []c20Variant // LibraryService
+	c20VariantsBy = map[string][]c20Variant{}
 )
 
 func c20Init() {
 	c20Once.Do(func() {
-		gfd, err := protoregistry.GlobalFiles.FindFileByPath("vanguard/test/v1/library.proto")
+		c20InitOne(libSvc, "vanguard/test/v1/library.proto")
+		c20Variants = c20VariantsBy[libSvc]
+		if c20InitErr == nil {
+			c20InitOne(contentSvc, "vanguard/test/v1/content.proto")
+		}
+	})
+}
+
+func c20InitOne(svcName, filePath string) {
+	short := protoreflect.FullName(svcName).Name()
+	var c20Fresh, c20DynOpts protoreflect.ServiceDescriptor
+	func() {
+		gfd, err := protoregistry.GlobalFiles.FindFileByPath(filePath)
 		if err != nil {
 			c20InitErr = err
 			return
@@ -95,7 +110,7 @@ func c20Init() {
 			c20InitErr = err
 			return
 		}
-		c20Fresh = fresh.Services().ByName("LibraryService")
+		c20Fresh = fresh.Services().ByName(short)
 		// dynamically typed options: re-parse the descriptor against a dynamic extension type for google.api.http
 		raw, _ := proto.Marshal(fdp)
 		annFD, err := protoregistry.GlobalFiles.FindFileByPath("google/api/annotations.proto")
@@ -148,24 +163,24 @@ func c20Init() {
 			c20InitErr = err
 			return
 		}
-		c20DynOpts = dyn.Services().ByName("LibraryService")
+		c20DynOpts = dyn.Services().ByName(short)
 		withSchema := func(sd protoreflect.ServiceDescriptor, extra ...vanguard.ServiceOption) func(h http.Handler, opts ...vanguard.ServiceOption) (*vanguard.Service, error) {
 			return func(h http.Handler, opts ...vanguard.ServiceOption) (*vanguard.Service, error) {
 				return vanguard.NewServiceWithSchema(sd, h, append(append([]vanguard.ServiceOption{}, opts...), extra...)...), nil
 			}
 		}
-		c20Variants = []c20Variant{
+		c20VariantsBy[svcName] = []c20Variant{
 			{"generated (NewService by name)", func(h http.Handler, opts ...vanguard.ServiceOption) (*vanguard.Service, error) {
-				return vanguard.NewService(libSvc, h, opts...), nil
+				return vanguard.NewService(svcName, h, opts...), nil
 			}},
 			{"fresh protodesc copy", withSchema(c20Fresh)},
 			{"fresh copy without parent file", withSchema(noParentSvc{c20Fresh})},
-			{"generated schema, resolver that knows nothing", withSchema(gfd.Services().ByName("LibraryService"), vanguard.WithTypeResolver(emptyResolver{}))},
+			{"generated schema, resolver that knows nothing", withSchema(gfd.Services().ByName(short), vanguard.WithTypeResolver(emptyResolver{}))},
 			{"fresh copy, resolver that knows request types only", withSchema(c20Fresh, vanguard.WithTypeResolver(requestOnlyResolver{}))},
 			{"dynamically typed google.api.http options", withSchema(c20DynOpts)},
 			{"global-types resolver for a fresh copy", withSchema(c20Fresh, vanguard.WithTypeResolver(protoregistry.GlobalTypes))},
 		}
-	})
+	}()
 }
 
 type descResolver struct {
@@ -200,7 +215,16 @@ var c20Responses = map[string]proto.Message{
 	"ListCheckouts": &testv1.ListCheckoutsResponse{Checkouts: []*testv1.Checkout{{Id: 1}, {Id: 2}}},
 }
 
+// content backend: responses per method (streams answer with several messages)
+var c20ContentResponses = map[string][]proto.Message{
+	"Index":     {&httpbody.HttpBody{ContentType: "text/html", Data: []byte("<p>index</p>")}},
+	"Upload":    {&emptypb.Empty{}},
+	"Download":  {&testv1.DownloadResponse{File: &httpbody.HttpBody{ContentType: "application/octet-stream", Data: []byte("part-1;")}}, &testv1.DownloadResponse{File: &httpbody.HttpBody{Data: []byte("part-2")}}},
+	"Subscribe": {&testv1.SubscribeResponse{FilenameChanged: "a.txt"}, &testv1.SubscribeResponse{FilenameChanged: "b.txt", Deleted: true}},
+}
+
 type c20Backend struct {
+	svc  string
 	view string
 }
 
@@ -209,19 +233,35 @@ func (b *c20Backend) ServeHTTP(w http.ResponseWriter, r *http.Request) {
 	seen.ReadBody(r.Body, nil)
 	pr := wire.ParseBackendRequest(r.Method, r.URL, seen.Header, seen.ContentLength, seen.Body)
 	method := r.URL.Path[strings.LastIndex(r.URL.Path, "/")+1:]
-	if pr.Form == wire.REST {
-		method = c20RESTMethod(r.Method, r.URL.Path)
+	svc := b.svc
+	if svc == "" {
+		svc = libSvc
 	}
-	gfd, _ := protoregistry.GlobalFiles.FindDescriptorByName(protoreflect.FullName(libSvc))
+	if pr.Form == wire.REST {
+		if svc == contentSvc {
+			method = c20ContentRESTMethod(r.Method, r.URL.Path)
+		} else {
+			method = c20RESTMethod(r.Method, r.URL.Path)
+		}
+	}
+	gfd, _ := protoregistry.GlobalFiles.FindDescriptorByName(protoreflect.FullName(svc))
 	md := gfd.(protoreflect.ServiceDescriptor).Methods().ByName(protoreflect.Name(method))
 	var sb strings.Builder
 	fmt.Fprintf(&sb, "%s %s form=%s codec=%s complaints=%v|", r.Method, r.URL.Path, pr.Form, pr.Codec, pr.Complaints)
 	if md != nil {
 		for _, m := range pr.Msgs {
+			if pr.Form == wire.REST && svc == contentSvc {
+				fmt.Fprintf(&sb, "raw(%s):%q;", seen.Header.Get("Content-Type"), m)
+				continue
+			}
 			sb.WriteString(canonMsg(pr.Codec, md.Input(), m) + ";")
 		}
 	}
 	b.view = sb.String()
+	if svc == contentSvc {
+		b.serveContent(w, pr, method)
+		return
+	}
 	resp := c20Responses[method]
 	if resp == nil {
 		w.WriteHeader(404)
@@ -250,7 +290,58 @@ func (b *c20Backend) ServeHTTP(w http.ResponseWriter, r *http.Request) {
 	}
 }
 
+func (b *c20Backend) serveContent(w http.ResponseWriter, pr *wire.BackendReq, method string) {
+	resps := c20ContentResponses[method]
+	if resps == nil {
+		w.WriteHeader(404)
+		return
+	}
+	if pr.Form == wire.REST {
+		// a REST backend answers with the raw file (HttpBody) or an empty JSON object
+		switch method {
+		case "Index":
+			w.Header().Set("Content-Type", "text/html")
+			_, _ = w.Write([]byte("<p>index</p>"))
+		case "Download":
+			w.Header().Set("Content-Type", "application/octet-stream")
+			_, _ = w.Write([]byte("part-1;"))
+			_, _ = w.Write([]byte("part-2"))
+		default:
+			w.Header().Set("Content-Type", "application/json")
+			_, _ = w.Write([]byte("{}"))
+		}
+		return
+	}
+	sr := &wire.ServerResp{Form: world.ServerFormFor(pr.Form), Codec: pr.Codec}
+	for _, m := range resps {
+		sr.Msgs = append(sr.Msgs, Enc(pr.Codec, m))
+	}
+	out := sr.Encode()
+	for k, v := range out.Header {
+		w.Header()[k] = v
+	}
+	w.WriteHeader(out.Status)
+	_, _ = w.Write(out.Body)
+	for k, v := range out.Trailer {
+		w.Header()[http.TrailerPrefix+k] = v
+	}
+}
+
+func c20ContentRESTMethod(verb, path string) string {
+	switch {
+	case strings.HasSuffix(path, ":upload"):
+		return "Upload"
+	case strings.HasSuffix(path, ":download"):
+		return "Download"
+	case verb == "GET":
+		return "Index"
+	}
+	return ""
+}
+
 type c20Req struct {
+	svc    string
+	msgs   []proto.Message
 	name   string
 	method string
 	target string
@@ -295,8 +386,21 @@ func c20Corpus() []c20Req {
 		rpc("cget-json-createbook-405", wire.ConnectGet, "CreateBook", "json", &testv1.CreateBookRequest{Parent: "p"}),
 		rpc("cunary-proto-getcheckout", wire.ConnectUnary, "GetCheckout", "proto", &testv1.GetCheckoutRequest{Id: 3}),
 		rpc("grpcweb-json-unknown-method", wire.GRPCWeb, "Nope", "json", &testv1.GetBookRequest{}),
+		// ContentService: HttpBody, client / server / bidi streams
+		content(rest("content-index", "GET", "/site/a%20b/page.html", "")),
+		content(c20Req{name: "content-upload-rest", method: "POST", target: "/dir/file.txt:upload", ct: "text/plain", body: "file contents", form: wire.REST}),
+		content(rest("content-download-rest", "GET", "/dir/file.bin:download", "")),
+		content(c20Req{name: "content-upload-grpc-json", form: wire.GRPC, rpc: "Upload", codec: "json", msgs: []proto.Message{
+			&testv1.UploadRequest{Filename: "dir/f.txt", File: &httpbody.HttpBody{ContentType: "text/plain", Data: []byte("one,")}},
+			&testv1.UploadRequest{File: &httpbody.HttpBody{Data: []byte("two")}}}}),
+		content(c20Req{name: "content-download-connect-proto", form: wire.ConnectStream, rpc: "Download", codec: "proto", msgs: []proto.Message{&testv1.DownloadRequest{Filename: "dir/f.bin"}}}),
+		content(c20Req{name: "content-subscribe-grpcweb-json", form: wire.GRPCWeb, rpc: "Subscribe", codec: "json", msgs: []proto.Message{
+			&testv1.SubscribeRequest{FilenamePatterns: []string{"*.txt"}}, &testv1.SubscribeRequest{FilenamePatterns: []string{"b*", "c*"}}}}),
+		content(c20Req{name: "content-index-cget-json", form: wire.ConnectGet, rpc: "Index", codec: "json", msgs: []proto.Message{&testv1.IndexRequest{Page: "p/q"}}}),
 	}
 }
+
+func content(q c20Req) c20Req { q.svc = contentSvc; return q }
 
 func (q c20Req) spec() *drive.ReqSpec {
 	if q.form == wire.REST {
@@ -309,7 +413,17 @@ func (q c20Req) spec() *drive.ReqSpec {
 		}
 		return s
 	}
-	cr := &wire.ClientReq{Form: q.form, Path: "/" + libSvc + "/" + q.rpc, Codec: q.codec, Msgs: [][]byte{Enc(q.codec, q.msg)}}
+	svc := q.svc
+	if svc == "" {
+		svc = libSvc
+	}
+	cr := &wire.ClientReq{Form: q.form, Path: "/" + svc + "/" + q.rpc, Codec: q.codec}
+	if q.msg != nil {
+		cr.Msgs = [][]byte{Enc(q.codec, q.msg)}
+	}
+	for _, m := range q.msgs {
+		cr.Msgs = append(cr.Msgs, Enc(q.codec, m))
+	}
 	s := worldSpec(cr)
 	return s
 }
@@ -335,7 +449,7 @@ func init() {
 	Register(&Check{
 		ID:    "C20",
 		Level: "exploration",
-		Rule: "A corpus of 25 requests against vanguard.test.v1.LibraryService (16 REST requests over all 13 bindings incl. nested / multi-segment variables, verbs, repeated and scalar bodies, response_body, escapes, an ill-typed parameter, wrong method, unknown route; RPC requests in gRPC, gRPC-Web, Connect POST and GET incl. a 405 and an unknown method) x 4 target configurations " +
+		Rule: "A corpus of 32 requests against vanguard.test.v1.LibraryService and ContentService (HttpBody bodies and responses, client / server / bidi streams) (16 REST requests over all 13 bindings incl. nested / multi-segment variables, verbs, repeated and scalar bodies, response_body, escapes, an ill-typed parameter, wrong method, unknown route; RPC requests in gRPC, gRPC-Web, Connect POST and GET incl. a 405 and an unknown method) x 4 target configurations " +
 			"is run against 7 registrations of the same schema (generated code by name; fresh protodesc copy; copy without parent file; resolver that knows nothing; resolver that knows only request types; dynamically typed google.api.http options; GlobalTypes resolver for a fresh copy) and against vanguardgrpc.NewTranscoder vs NewService-by-name over one grpc.Server; " +
 			"every variant's client- and backend-side semantic outcome must equal the generated-code variant's. Non-trivial = (request, target, variant) whose message types resolve to a different Go type than in the baseline.",
 		Assume:    []string{"messages are compared after decoding against the generated descriptors"},
@@ -361,7 +475,7 @@ func c20Scenario(c *xplor.Ctx) {
 	codec := []string{"proto", "json", "proto", "json"}[tgt]
 	c.Attr("target", tp.String())
 	run := func(v c20Variant) (string, error) {
-		be := &c20Backend{}
+		be := &c20Backend{svc: q.svc}
 		svc, err := v.make(be, vanguard.WithTargetProtocols(tp), vanguard.WithTargetCodecs(codec))
 		if err != nil {
 			return "", err
@@ -383,12 +497,16 @@ func c20Scenario(c *xplor.Ctx) {
 		}
 		return view, nil
 	}
-	base, err := run(c20Variants[0])
+	variants := c20Variants
+	if q.svc != "" {
+		variants = c20VariantsBy[q.svc]
+	}
+	base, err := run(variants[0])
 	if err != nil {
 		c.Fail("harness.setup", "%v", err)
 		return
 	}
-	for _, v := range c20Variants[1:] {
+	for _, v := range variants[1:] {
 		got, err := run(v)
 		if err != nil {
 			c.Fail("harness.setup", "%s: %v", v.name, err)
@@ -420,11 +538,19 @@ func c20Body(q c20Req, rec *drive.Recorder) string {
 	var sb strings.Builder
 	fmt.Fprintf(&sb, "end=%d/%q bare=%v complaints=%v|", pr.End.Code, pr.End.Message, pr.BareHTTP, pr.Complaints)
 	for _, m := range pr.Msgs {
+		if (form == wire.REST || pr.BareHTTP) && q.svc == contentSvc {
+			fmt.Fprintf(&sb, "raw(%s):%q;", rec.Snapshot.Get("Content-Type"), m)
+			continue
+		}
 		if form == wire.REST || pr.BareHTTP {
 			sb.WriteString(canonJSON(m) + ";")
 			continue
 		}
-		gfd, _ := protoregistry.GlobalFiles.FindDescriptorByName(protoreflect.FullName(libSvc))
+		svc := q.svc
+		if svc == "" {
+			svc = libSvc
+		}
+		gfd, _ := protoregistry.GlobalFiles.FindDescriptorByName(protoreflect.FullName(svc))
 		if md := gfd.(protoreflect.ServiceDescriptor).Methods().ByName(protoreflect.Name(q.rpc)); md != nil {
 			sb.WriteString(canonMsg(pr.Codec, md.Output(), m) + ";")
 		} else {
@@ -437,7 +563,7 @@ func c20Body(q c20Req, rec *drive.Recorder) string {
 // c20GRPC compares vanguardgrpc.NewTranscoder(server) with NewService(name, server) + the same options.
 func c20GRPC(c *xplor.Ctx, q c20Req) {
 	c.Attr("target", "vanguardgrpc")
-	if q.form == wire.GRPC || strings.Contains(q.name, "unknown-method") {
+	if q.form == wire.GRPC || strings.Contains(q.name, "unknown-method") || q.svc != "" {
 		c.Skip() // a gRPC client of a gRPC server is forwarded untouched
 		return
 	}
